@@ -283,6 +283,7 @@ def parse_correspondence(ctx, hist):
             ctx.violation("worker:" + r.get("error", "?"), {"result": r, "texts": [e[2] for e in entries]},
                           f"Polar worker failed on a parse task: {r.get('error')} {r.get('etype', '')}", no_input=True)
             continue
+        baseline_ok = bool(entries) and entries[0][0] == "baseline" and r["results"][0].get("ok") == md
         for (kind, sp, text, logs), x in zip(entries, r["results"]):
             hist["spelling"][kind] = hist["spelling"].get(kind, 0) + 1
             ctx.count({"t": text}, nontrivial=len(p["body"]) >= 2)
@@ -293,6 +294,14 @@ def parse_correspondence(ctx, hist):
                     if not ctx.violation(SIG_TYPES_COMMENT, dict(replay, polar=x),
                                          "a comment line between two typedefs is rejected (same text without the comment parses)"):
                         ctx.coverage["discharged"] += 1
+                    continue
+                if sp.consts == "dec" and baseline_ok and "err" in x and x["err"]["kind"] == "constructor-error" \
+                        and "sum up to 1" in x["err"]["msg"]:
+                    # Categorical(0, 2/3, 0.5 - 1/6): the float difference is rationalised to 0.333333333333333
+                    if not ctx.violation(SIG_FLOAT, dict(replay, polar=x),
+                                         "decimal spelling rejected: Categorical parameters combined in float arithmetic no longer sum to 1"):
+                        ctx.coverage["discharged"] += 1
+                        hist["known"][SIG_FLOAT] = hist["known"].get(SIG_FLOAT, 0) + 1
                     continue
                 ctx.violation(f"valid-spelling-rejected:{kind}:{x.get('err', {}).get('etype', x.get('dump_error', '?'))}",
                               dict(replay, polar=x), f"Polar rejects a valid spelling ({kind}): {x.get('err') or x.get('dump_error')}")
@@ -327,6 +336,15 @@ def parse_correspondence(ctx, hist):
                           f"spelling '{kind}' of a program parses to a different structure than the AST it spells")
 
 
+def frac_twin(e):
+    """the same AST with every decimal literal m/10^k written as the quotient of two integer literals"""
+    if e[0] == "num":
+        return e if e[2] == 0 else ("div", ("num", e[1], 0), ("num", 10 ** e[2], 0))
+    if e[0] == "var":
+        return e
+    return (e[0],) + tuple(frac_twin(a) for a in e[1:])
+
+
 # ---- arithmetic precedence ---------------------------------------------------------------------------
 def precedence_check(ctx, hist):
     rng = ctx.rng
@@ -348,6 +366,7 @@ def precedence_check(ctx, hist):
         tasks.append({"kind": "c19_eval", "exprs": [t for _, t in exprs[j:j + per]], "points": pts, "timeout": 120})
     results = lib.run_tasks(tasks, timeout=120)
     shapes = {"polynomial": 0, "rational-function": 0, "undefined-at-all-points": 0, "decimal-float-known": 0}
+    pending = []
     k = 0
     for j, r in zip(range(0, len(exprs), per), results):
         chunk = exprs[j:j + per]
@@ -407,8 +426,37 @@ def precedence_check(ctx, hist):
                     if not ctx.violation(SIG_FLOAT, replay, "decimal literals are combined in float arithmetic before float_to_rational"):
                         ctx.coverage["discharged"] += 1
                     continue
+            if T.has_decimal(e):
+                pending.append((e, text, x, replay))
+                continue
             ctx.violation(f"precedence:{text}", replay,
                           f"Polar reads {text!r} as {x.get('str')}, Python precedence gives a different value")
+    # decimal texts that disagree beyond rounding: ask Polar about the FRACTION twin of the same AST; if
+    # that one is right, the divergence is between decimal and fraction notation (known root cause:
+    # decimal literals reach the CAS as floats), otherwise it is a precedence violation
+    if pending:
+        twins = []
+        for e, text, x, replay in pending:
+            twins.append(T.render(T.print_min(frac_twin(e)), T.Spelling(rng)).strip())
+        tr = lib.run_tasks([{"kind": "c19_eval", "exprs": twins, "points": pts, "timeout": 120}], timeout=120)[0]
+        for (e, text, x, replay), tw, y in zip(pending, twins, tr.get("results", [{}] * len(pending))):
+            okt = "values" in y
+            if okt:
+                for pt, pv in zip(pts, y["values"]):
+                    try:
+                        v = T.sx_eval(e, {a: Fraction(b) for a, b in pt.items()})
+                    except (ZeroDivisionError, OverflowError):
+                        v = None
+                    if v is not None and (pv.startswith("?") or Fraction(pv) != v):
+                        okt = False
+            if okt:
+                shapes["decimal-float-known"] += 1
+                if not ctx.violation(SIG_FLOAT, dict(replay, fraction_twin=tw, polar_twin=y),
+                                     f"decimal text {text!r} is read differently from its fraction twin {tw!r} (which is read correctly)"):
+                    ctx.coverage["discharged"] += 1
+            else:
+                ctx.violation(f"precedence:{text}", replay,
+                              f"Polar reads {text!r} as {x.get('str')}, Python precedence gives a different value")
     hist["precedence_shapes"] = shapes
 
 
